@@ -41,8 +41,44 @@ package hydra
 //@   invariant[cond_set] self.cond != nil
 //@ func (*hydra).getSwamp(h, n) (s)
 //@   opaque
-//@ func (*hydra).createNewSwamp(h, islandID, n) (s)
+// createNewSwamp (properties C21, C20, C16, C18): the instance is built with the settings the settings
+// store resolves for exactly this name (one lookup), its data folder is the hashed path of this name for
+// this island, under the configured root / depth / fan-out; a swamp whose resolved type is permanent gets
+// a chronicler for that folder (so that its acknowledged writes reach the disk), any other type gets none
+// (filesystem settings nil: an in-memory swamp); the close callback handed to the instance is hydra's own
+// (the one that unregisters it, see closeEventCallbackFunction).
+//@ trusted func (github.com/hydraide/hydraide/app/core/settings.Settings).GetBySwampName(s, n) (st)
+//@   ensures st != nil
+//@ trusted func (github.com/hydraide/hydraide/app/core/settings.Settings).GetHydraAbsDataFolderPath(s) (p)
+//@ trusted func (github.com/hydraide/hydraide/app/core/settings.Settings).GetHashFolderDepth(s) (d)
+//@ trusted func (github.com/hydraide/hydraide/app/core/settings.Settings).GetMaxFoldersPerLevel(s) (m)
+//@ trusted func (github.com/hydraide/hydraide/app/core/settings.Settings).IsV2Engine(s) (b)
+//@ trusted func (github.com/hydraide/hydraide/app/core/settings/setting.Setting).UseChroniclerV2(st) (b)
+//@ trusted func (github.com/hydraide/hydraide/app/core/settings/setting.Setting).GetSwampType(st) (t)
+//@ trusted func (github.com/hydraide/hydraide/app/core/settings/setting.Setting).GetWriteInterval(st) (d)
+//@ trusted func (github.com/hydraide/hydraide/app/core/settings/setting.Setting).GetCloseAfterIdle(st) (d)
+//@ trusted func (github.com/hydraide/hydraide/app/name.Name).GetFullHashPath(n, root, island, depth, fanout) (p)
+//@ trusted func (github.com/hydraide/hydraide/app/core/hydra/swamp/metadata.Metadata).LoadFromFile(m)
+//@ trusted func (github.com/hydraide/hydraide/app/core/hydra/swamp/metadata.Metadata).SetSwampName(m, n)
+//@ func (*hydra).loadChronicler(h, swampSettings, folder, meta, n, useV2) (c)
 //@   opaque
+//@   ensures c != nil
+//@ func (*hydra).IsExistSwamp(h, islandID, n) (found, err)
+//@   property C20
+//@   modifies *
+//@   before Name.GetFullHashPath [looks_in_the_folder_createNewSwamp_stores_in] arg0 == n && arg2 == islandID && calledwith("Settings.GetHydraAbsDataFolderPath", 0, h.settingsInterface) && arg1 == lastret("Settings.GetHydraAbsDataFolderPath") && arg3 == lastret("Settings.GetHashFolderDepth") && arg4 == lastret("Settings.GetMaxFoldersPerLevel")
+//@   ensures[refused_after_shutdown] old(h.shuttingDown) == 1 ==> err != nil && !found
+//@   ensures[a_registered_instance_exists] old(h.shuttingDown) != 1 && calls("hydra.getSwamp") > old(calls("hydra.getSwamp")) && !isnil(lastret("hydra.getSwamp")) ==> found && err == nil
+//@ func (*hydra).createNewSwamp(h, islandID, n) (s)
+//@   property C21 C20 C16 C18
+//@   overflow: assumed
+//@   modifies *
+//@   before Name.GetFullHashPath [data_folder_is_the_hashed_path_of_this_name_and_island] arg0 == n && arg2 == islandID && calledwith("Settings.GetHydraAbsDataFolderPath", 0, h.settingsInterface) && arg1 == lastret("Settings.GetHydraAbsDataFolderPath") && arg3 == lastret("Settings.GetHashFolderDepth") && arg4 == lastret("Settings.GetMaxFoldersPerLevel")
+//@   before hydra.loadChronicler [storage_only_for_a_permanent_swamp_in_its_own_folder] lastret("Setting.GetSwampType") == setting.PermanentSwamp && arg1 == lastret("Settings.GetBySwampName") && arg2 == lastret("Name.GetFullHashPath") && arg4 == n
+//@   before New [built_for_this_name_with_its_resolved_settings] arg0 == n && arg1 == lastret("Setting.GetCloseAfterIdle") && calledwith("Setting.GetCloseAfterIdle", 0, lastret("Settings.GetBySwampName")) && ((arg2 != nil) <==> (lastret("Setting.GetSwampType") == setting.PermanentSwamp))
+//@   ensures[settings_resolved_once_for_exactly_this_name] calls("Settings.GetBySwampName") == old(calls("Settings.GetBySwampName")) + 1 && calledwith("Settings.GetBySwampName", 1, n) && calledwith("Settings.GetBySwampName", 0, old(h.settingsInterface))
+//@   ensures[permanent_swamp_gets_storage] (lastret("Setting.GetSwampType") == setting.PermanentSwamp) <==> (calls("hydra.loadChronicler") == old(calls("hydra.loadChronicler")) + 1)
+//@   ensures[one_instance] calls("New") == old(calls("New")) + 1 && ipay(s) == ipay(lastret("New"))
 //@   ensures s != nil
 //@ func (*hydra).hasEventSubscriber(h, n) (b)
 //@   opaque
